@@ -157,3 +157,33 @@ Proof.
   destruct (bits_B mark space bitsd) as [bits| | |]; cbn [bind]; try reflexivity; [|discriminate].
   destruct (cl1 ++ bitsd ++ lob_clean st); reflexivity.
 Qed.
+
+(* ---- soundness of the serial data loop for arbitrary input (C05, engine half): whatever list of integers reaches the loop, if it
+   returns bits then every consumed burst lies in the tolerance window of k marks or k spaces (k >= 1), and the returned
+   durations are exactly those runs written out - no received burst is accepted as a run it is not within tolerance of *)
+Theorem data_B_sound tol mark space : forall ds out, data_B tol mark space ds = Ok out ->
+  exists runs : list (Z * Z),
+    Forall2 (fun b tk => matchb tol b (fst tk * snd tk) = true /\ 0 < snd tk /\ (fst tk = mark \/ fst tk = space)) ds runs /\
+    out = flat_map (fun tk => repeat (fst tk) (Z.to_nat (snd tk))) runs.
+Proof.
+  induction ds as [|b r IH]; intros out H; cbn [data_B] in H.
+  - injection H as <-. exists []. split; [constructor|reflexivity].
+  - destruct (mark =? 0); [discriminate|].
+    assert (forall t n, 0 < n -> (t = mark \/ t = space) ->
+              (if matchb tol b (t * n) then do rest <- data_B tol mark space r; Ok (repeat t (Z.to_nat n) ++ rest)
+               else IRErr IRStreamError) = Ok out ->
+              exists runs, Forall2 (fun b tk => matchb tol b (fst tk * snd tk) = true /\ 0 < snd tk /\ (fst tk = mark \/ fst tk = space))
+                                   (b :: r) runs /\ out = flat_map (fun tk => repeat (fst tk) (Z.to_nat (snd tk))) runs) as Hstep.
+    { intros t n Hn Ht Hx. destruct (matchb tol b (t * n)) eqn:Em; [|discriminate].
+      destruct (data_B tol mark space r) as [rest| | |] eqn:Er; cbn [bind] in Hx; try discriminate.
+      injection Hx as <-. destruct (IH rest eq_refl) as [runs [F E]].
+      exists ((t, n) :: runs). split; [constructor; [cbn [fst snd]; auto|exact F]|cbn [flat_map fst snd]; rewrite E; reflexivity]. }
+    destruct (0 <? b / mark) eqn:Ek; cbn [bind] in H.
+    + apply (Hstep mark (b / mark)); [lia|left; reflexivity|exact H].
+    + destruct (space =? 0); [discriminate|]. destruct (0 <? b / space) eqn:Ek2; cbn [bind] in H; [|discriminate].
+      apply (Hstep space (b / space)); [lia|right; reflexivity|exact H].
+Qed.
+
+(* non-vacuity: PCTV's tables (lead-in 1664, -6656, 832; lead-out 1664, -100000), a frame of its encoder *)
+Example serial_runs_example : data_B 20 (-832) 832 [-832; 1664; -2496; 832] = Ok [-832; 832; 832; -832; -832; -832; 832].
+Proof. vm_compute. reflexivity. Qed.
